@@ -87,6 +87,12 @@ func (m *authenticatedMap[IdentifierType, K, V]) Set(key K, value V) error {
 		return ierrors.Wrap(err, "failed to serialize value")
 	}
 
+	// The tree reports an absent key as a nil value, so an empty value must never be stored as nil:
+	// otherwise the key would be in the tree (and counted) but invisible to Has, Get and Delete.
+	if valueBytes == nil {
+		valueBytes = []byte{}
+	}
+
 	keyBytes, err := m.keyToBytes(key)
 	if err != nil {
 		return ierrors.Wrap(err, "failed to serialize key")
